@@ -206,6 +206,48 @@ def _edge_dominates(f, dom, src, dst, target):
     return dst in dom[target] and f.blocks[dst].preds == [src]
 
 
+def check_interp_width(ctx, m, cfg):
+    """width (C14): the real cube coordinates handed to the rounding helper are computed in double precision.  Local IJK coordinates at fine resolutions
+    reach about 7^(15/2) = 2.2e6 > 2^21, where a `float` has a spacing of 0.25: an interpolated point kept (or accumulated) in single precision is
+    off by a quarter of a cell and more, so the rounded cell is not the one the exact line passes through - the path does not end in `end` or steps
+    between non-neighbours.  The rule takes the backward slice (through arithmetic, casts, phis and selects, not through memory or calls other than
+    the libm intrinsics) of the three coordinate arguments at every call of the helper and reports any value of type float in it."""
+    reach = _reachable(m, ["gridPathCells"])
+    helpers = [f for f in m.defined() if f.name in reach and f.name != "gridPathCells" and len([a for a in f.args if a["type"] == "double"]) == 3
+               and any(a["type"].startswith("%struct.CoordIJK*") for a in f.args)]
+    n = 0
+    for h in helpers:
+        dbl = [k for k, a in enumerate(h.args) if a["type"] == "double"]
+        for g, c in _callers(m, h.name):
+            n += 1
+            inst = {"helper": h.name, "caller": g.name, "call": c.where(), "config": cfg}
+            seen, todo, bad, size = set(), [c.ops[k] for k in dbl if k < len(c.ops)], None, 0
+            while todo and bad is None:
+                o = todo.pop()
+                if o[0] != "i" or o[1] in seen:
+                    continue
+                seen.add(o[1])
+                i = g.insts[o[1]]
+                size += 1
+                if i.type == "float" or i.op in ("fptrunc", "fpext"):
+                    bad = i
+                    break
+                if i.op in ("load", "alloca"):
+                    continue
+                if i.op == "call" and not (i.callee or "").startswith("llvm."):
+                    continue
+                todo.extend(x for x in i.ops if x[0] == "i")
+            inst["slice_size"] = size
+            if bad is not None:
+                ctx.violation(RULE, "width:%s:%s" % (g.name, h.name),
+                              "%s computes a cube coordinate it hands to %s in single precision (%s of type %s at %s): local coordinates at fine resolutions exceed 2^21, where "
+                              "float values are 0.25 apart, so interpolated path points are rounded to the wrong cell (the path misses its end or steps between non-neighbours)"
+                              % (g.name, h.name, bad.op, bad.type, bad.where()), bad.where(), inst)
+            else:
+                ctx.ok(RULE, inst, "the %d values from which %s computes the coordinates handed to %s are all double precision or integers" % (size, g.name, h.name))
+    return n
+
+
 def check_selfexcl(ctx, m, cfg):
     PRED = "pointInsideLinkedGeoLoop"
     n = 0
